@@ -6,6 +6,7 @@
 //!   ops : 0 t | 1 a b amt up_to | 2 a b amt all | 3 a b amt | 4 a b amt all | 7 a b | 10 b | 16 b
 //!         | 17 liqor liqee ab lb amt | 18 a b | 19 b price
 //!         | 30 a (fixture: the group's risk admin becomes the authority of account a; 255 = the admin again)
+//!         | 32 b a (collect_bank_fees with a substituted fee ATA: the token account of user a for the bank's mint)
 //!         | 31 b flags (fixture: bank flags word := flags)
 //! out : per op `<res> # <bank dumps ';'-separated> # <account dumps ';'-separated>` joined by " | "
 use crate::sim::*;
@@ -270,6 +271,13 @@ fn run_inner(line: &str, with_ref: bool) -> String {
                 let b = t.usize();
                 let ctx = bank_ctx(&h.w, &h.banks[b]);
                 let ix = ixs::lending_pool_collect_bank_fees(group, h.banks[b], h.fee_atas[b], h.tprog[b], ctx.mint_prefix.clone());
+                h.w.exec(ix, &[h.admin])
+            }
+            32 => {
+                let b = t.usize();
+                let a = t.usize();
+                let ctx = bank_ctx(&h.w, &h.banks[b]);
+                let ix = ixs::lending_pool_collect_bank_fees(group, h.banks[b], h.utok[a][b], h.tprog[b], ctx.mint_prefix.clone());
                 h.w.exec(ix, &[h.admin])
             }
             17 => {
